@@ -215,7 +215,11 @@ def C09(rep, prog, tier):
             "Z.start", "W.start", "LEX.start", "LEX.tie-constraints", "LEX.tie-quantifier", "LEX.balance", "W.balance", "W.ignore", "LEX.ignore",
             # direct inference: every conditional of the base stays in the base the operator reasons about (no key collision),
             # and c-inference's early exit fires only when *no* conditional can be falsified
-            "KEY.no-reserved", "C01.negation", "C.selffulfilling", "C.relations"}
+            "KEY.no-reserved", "C01.negation", "C.selffulfilling", "C.relations",
+            # the postulates relate answers to several queries over one base: each answer rests on the complete family of
+            # inclusion-minimal correction sets (a set missing or a superset kept breaks Or / cautious monotony) and on an
+            # acceptance constraint for every conditional of the base (direct inference)
+            "MCS.minimal", "MCS.loop", "MCS.block", "MCS.violated", "Z3MCS.loop", "Z3MCS.soft", "Z3MCS.block", "Z3MCS.model", "C.empty-minimum", "C.minima-roles"}
     rep.only = keep
     try:
         _run(rep, wrappers.shortcut_guard, ex)
@@ -226,6 +230,15 @@ def C09(rep, prog, tier):
         cls = _class_of(table, ("c-inference", None))
         if cls:
             _run(rep, cinf.answer, ex, cls)
+            _run(rep, cinf.encoding_relation, ex, cls)
+        _run(rep, enum.violated, ex)
+        _run(rep, enum.block, ex)
+        _run(rep, enum.minimal, ex)
+        _run(rep, enum.loop, ex)
+        for key_ in (("system-w", True), ("lex_inf", True)):
+            cls = _class_of(table, key_)
+            if cls:
+                _run(rep, enum.z3mcs, ex, cls)
         cls = _class_of(table, ("system-z", None))
         if cls:
             _run(rep, sysz.rec, ex, cls)
